@@ -278,3 +278,15 @@ PROPS["C02"] = {
                   "tiers": {"quick": T(30000, 2, timeout=300), "thorough": T(1000000, 4, timeout=3000)}},
     },
 }
+
+PROPS["C01"] = {
+    "level": "exploration",
+    "technique": "model-based property testing of the whole resolver stack against a generated signed namespace with ground truth: in-memory authorities behind the dial hook, a generated tamper script on one zone's responses, histories of client questions under a virtual clock; each reply is judged against what the signers published",
+    "level_text": ("A generator draws a namespace (signed root, one or two TLDs, second- and third-level zones; NSEC / NSEC3 with salt, iterations and opt-out; split or single keys, ECDSA P-256 and Ed25519; unsigned zones, signed islands without DS, delegations whose DS matches no key; parent and child on one server; wildcards next to concrete siblings, empty non-terminals, CNAME and DNAME aliases across zones) and signs it with miekg/dns. "
+                   "In-memory authorities serve RFC 4035/5155-conformant responses through the verif dial hook; sdns runs its complete default chain (edns, cache, resolver, ...) inside a synctest bubble. A tamper script edits every response of one zone (empty, corrupt / strip signatures, strip all DNSSEC, genuinely re-signed but expired / not yet valid, re-signed by a validly chained zone that is no ancestor) or one kind of response (flipped RDATA, dropped or foreign denial, flipped RCODE, stripped or swapped DS, injected foreign records, unsigned replacement, RFC 4035 5.3.4 wildcard replay with forged in-zone / parent-zone NSEC), optionally while blocking explicit DS questions; trust anchors may be absent; QNAME minimisation on or off. "
+                   "Histories of 1-5 client questions (DO, CD, AD, EDNS, wire-born / decoded, UDP / TCP, repeats served from cache, sleeps) are judged: AD never toward CD or (no DO and no AD) clients, never unless every covered element is under an unbroken signed chain, never on an opt-out-dependent denial; with no anchor, below a bogus delegation, or when every response of a zone the reply depends on is tampered, a CD=0 client gets SERVFAIL (with EDE iff it spoke EDNS, never an OPT otherwise); a non-SERVFAIL reply for a secure name has exactly the published rcode, alias records and final RRset (TTL <= published) and, for denials, only published authority records. Exploration."),
+    "level_note": "Trusted: internal/vfworld (zone truth, honest authority, miekg/dns signing) as the reference. A reply that stops at a validated alias is judged for what it covers (sdns answers so when the target cannot be validated; a maintainer test pins it). RFC 5155 12.2: names inside opt-out spans carry no assurance without AD. Key bits are not a function of VERIF_SEED on this toolchain (crypto/ecdsa ignores custom randomness); behaviour does not depend on them. Algorithms other than 13/15, NSEC3 iteration limits and multi-anchor roots are not generated here (C14 covers the primitives).",
+    "rule": ("evaluations = histories. Non-trivial = a tampered response was consumed while resolving a CD=0 question for a name under a signed chain, or a secure reply was fully checked against published data; distinct = hash(world, tamper, question shapes)."),
+    "units": {"world": {"pkg": "./server", "run": "^TestVerifC01World$", "tiers": {"quick": T(1500, 8, timeout=900), "thorough": T(40000, 12, timeout=3400)},
+                        "floors": {"C01.world": {"tamper-fired": 0.1, "tamper-consumed-on-secure-name": 0.05, "secure": 0.3, "denial": 0.2, "served-from-cache": 0.1, "alias-chain": 0.004, "wildcard": 0.008, "honest-world": 0.1, "no-anchor": 0.02}}}},
+}
